@@ -156,11 +156,17 @@ def _random_vector(rnd):
     return argv, stdin_text
 
 
-def _run(zerv, argv, stdin_text, cwd, env):
+def _limits():
+    import resource
+    resource.setrlimit(resource.RLIMIT_AS, (3 << 30, 3 << 30))     # a runaway template must not take the machine down
+    resource.setrlimit(resource.RLIMIT_CPU, (20, 25))
+
+
+def _run(zerv, argv, stdin_text, cwd, env, timeout=60):
     try:
         p = subprocess.run([zerv] + argv, input=(stdin_text if stdin_text is not None else None),
                            stdin=(subprocess.DEVNULL if stdin_text is None else None),
-                           stdout=subprocess.PIPE, stderr=subprocess.PIPE, cwd=cwd, env=env, timeout=60)
+                           stdout=subprocess.PIPE, stderr=subprocess.PIPE, cwd=cwd, env=env, timeout=timeout, preexec_fn=_limits)
         return p.returncode, p.stdout, p.stderr
     except subprocess.TimeoutExpired:
         return None, b"", b"timeout"
@@ -237,6 +243,25 @@ def run(tier="quick", seed=0):
                         mask = lambda b: re.sub(rb"\d{9,}", b"<ts>", b)
                         if mask(again[1]) != mask(plain[1]) or again[0] != plain[0]:
                             bad("logs-on-stdout", f"`zerv {' '.join(repr(a) for a in argv)}` -v: stdout/status differ from the plain run")
+        # ---- adversarial templates that end inside the template engine (tera, a dependency): each class is one recorded finding
+        T = ["version", "--source", "none", "--tag-version", "1.2.3"]
+        tera_vectors = [
+            ("tera-builtin-panic", T + ["--bumped-timestamp", "8210266876800", "--output-template", "{{ bumped_timestamp | date(format=\"%Y%m%d\") }}"]),
+            ("tera-builtin-panic", ["render", "1.2.3", "--output-template", "{{ 99999999999999 | date }}"]),
+            ("tera-builtin-panic", T + ["--major", "{{ get_random(start=5, end=5) }}"]),
+            ("tera-builtin-panic", ["render", "1.2.3", "--output-template", "{{ \"7\" | int(base=1) }}"]),
+            ("tera-stack-overflow", T + ["--output-template", "{% import \"template\" as m %}"]),
+            ("tera-stack-overflow", T + ["--output-template", "{{ " + "(" * 5000 + "1" + ")" * 5000 + " }}"]),
+            ("tera-no-termination", T + ["--output-template", "{{ range(end=3, step_by=0) }}"]),
+        ]
+        for cls, argv in tera_vectors:
+            res["cases"] += 1
+            rc, out, err = _run(zerv, argv, None, work, base_env, timeout=15)
+            show = " ".join(repr(a if len(a) < 90 else a[:40] + "…" + a[-20:]) for a in argv)
+            if rc is None or rc < 0 or rc in (101, 134) or b"panicked at" in err:
+                bad(cls, f"`zerv {show}`: " + ("no result within 15 s / killed by the resource limit" if rc is None or rc in (-9, -24) else f"status {rc}: {err.decode('utf-8', 'replace').strip()[:200]!r}"))
+            elif rc == 0 and cls != "tera-builtin-panic":
+                pass
         # every git invocation failing
         empty = os.path.join(work, "norepo")
         os.makedirs(empty)
@@ -461,6 +486,35 @@ def run_bumps(tier="quick", seed=0):
                 if rc != 0 or got != want:
                     bad("bounded-agreement", f"`zerv {' '.join(argv[2:])}`: status {rc}, prints {got!r}; the level semantics give {want!r}"
                         + (f" (stderr: {err.decode('utf-8', 'replace')[:160]!r})" if rc != 0 else ""))
+        # ---- corners reported by the bug hunt; each class is one recorded finding
+        def one(argv, cls, expect, why):
+            res["cases"] += 1
+            rc, out, err = _run(zerv, argv, None, work, env)
+            got = out.decode("utf-8", "replace").strip()
+            if rc != 0 or got != expect:
+                bad(cls, f"`zerv {' '.join(argv)}`: status {rc}, prints {got!r}; {why} gives {expect!r}")
+        V = ["version", "--source", "none", "--output-format", "semver"]
+        ron = "(core:[var(Major),var(Minor),var(Patch)],extra_core:[var(PreRelease),var(Post),var(Dev)],build:[],precedence_order:ORDER)"
+        one(V + ["--tag-version", "1.2.3", "--schema-ron", ron.replace("ORDER", "[]"), "--major", "7", "--bump-minor", "--post", "4"], "custom-precedence-order",
+            "7.3.0-post.4", "the statement's fixed level order")
+        one(V + ["--tag-version", "1.2.3", "--schema-ron", ron.replace("ORDER", "[Minor,Major]"), "--bump-minor", "--patch", "9"], "custom-precedence-order",
+            "1.3.9", "the statement's fixed level order")
+        lit = "(core:[uint(2024),var(Major),var(Minor),var(Patch)],extra_core:[var(PreRelease),var(Post),var(Dev)],build:[])"
+        one(V + ["--tag-version", "1.2.3-rc.4.post.5.dev.6", "--schema-ron", lit, "--bump-core", "0"], "literal-component-bump-no-reset",
+            "2025.1.2-3", "'a bump resets every lower level' (core section level: pre-release, post and dev absent)")
+        S = ["--schema", "standard-base-prerelease-post-dev", "--tag-version", "1.2.3-rc.4.post.5.dev.6"]
+        one(V + S + ["--bump-major", "none"], "none-like-flag-value", "2.0.0", "'a bump then adds its amount (default 1)' — or a refusal of the non-numeric amount")
+        rcx, outx, errx = _run(zerv, V + S + ["--major", ""], None, work, env)
+        res["cases"] += 1
+        if rcx == 0:
+            bad("none-like-flag-value", f"`zerv … --major ''`: status 0, prints {outx.decode('utf-8', 'replace').strip()!r}; a non-numeric value for a numeric component is to be rejected without output")
+        dev_first = "(core:[var(Major),var(Minor),var(Patch)],extra_core:[var(Dev),var(Post),var(PreRelease)],build:[])"
+        res["cases"] += 1
+        r1 = _run(zerv, V + ["--tag-version", "1.2.3-rc.4.post.5.dev.6", "--schema-ron", dev_first, "--bump-extra-core", "0", "--bump-extra-core", "1"], None, work, env)
+        r2 = _run(zerv, V + ["--tag-version", "1.2.3-rc.4.post.5.dev.6", "--schema-ron", dev_first, "--bump-dev", "--bump-post"], None, work, env)
+        if r1[0] != r2[0] or r1[1] != r2[1]:
+            bad("section-index-order", f"extra_core [dev, post, pre-release]: `--bump-extra-core 0 --bump-extra-core 1` prints {r1[1].decode('utf-8', 'replace').strip()!r}, "
+                                       f"the by-name flags `--bump-dev --bump-post` print {r2[1].decode('utf-8', 'replace').strip()!r}")
         # "an index-addressed operation (`--bump-core i`, `--core i=v`, negative or `~n` indices) performs … the same override or bump
         # on the component at that position as the by-name flag would": each index form against the by-name flag
         base = ["version", "--source", "none", "--tag-version", "1.2.3-rc.4.post.5.dev.6", "--output-format", "semver", "--schema", "standard-base-prerelease-post-dev"]
@@ -549,4 +603,56 @@ def run_verdict(tier="quick", seed=0):
     return res
 
 
-FAMILIES = {"cli_check_verdict": run_verdict, "cli_discipline": run, "cli_pipe": run_pipe, "cli_bumps": run_bumps}
+TEMPLATE_BOUND = ("process-level view of the template output: 12 `--output-template` vectors through the real binary whose exact output is fixed by the statement "
+                  "(scalar variables equal the Zerv variables, parts recompose, prefix_if) — values spelled none / null / nil, surrounding whitespace")
+
+
+def run_template_output(tier="quick", seed=0):
+    """C15 at the process level: the template's result is what stdout shows."""
+    t0 = time.time()
+    res = {"family": "cli_template_output", "bound": TEMPLATE_BOUND, "cases": 0}
+    ok, msg = rengine.build_zerv()
+    if not ok:
+        res.update(status="error", lines=["the zerv binary does not build from the working tree: " + msg[-400:]])
+        return res
+    zerv = rengine.ZERV
+    work = tempfile.mkdtemp(prefix="verif_tpl_")
+    classes = {}
+    try:
+        env = {k: v for k, v in os.environ.items() if not k.startswith("RUST_LOG") and not k.startswith("ZERV_")}
+        env.update(HOME=work, NO_COLOR="1")
+        V = ["version", "--source", "none", "--tag-version", "1.2.3"]
+        vectors = [
+            (V + ["--bumped-branch", "main", "--output-template", "{{ bumped_branch }}"], "main", None),
+            (V + ["--bumped-branch", "main", "--output-template", "{{ major }}.{{ minor }}.{{ patch }}|{{ semver }}|{{ pep440 }}"], "1.2.3|1.2.3|1.2.3", None),
+            (["render", "1.2.3-rc.1+b.7", "--output-template", "{{ semver_obj.base_part }}-{{ semver_obj.pre_release_part }}+{{ semver_obj.build_part }}"], "1.2.3-rc.1+b.7", None),
+            (V + ["--bumped-branch", "x", "--output-template", "{{ prefix_if(value=bumped_branch, prefix='+') }}"], "+x", None),
+            (V + ["--bumped-branch", "nil", "--output-template", "{{ bumped_branch }}"], "nil", "template-result-none-like"),
+            (V + ["--bumped-branch", "NoNe", "--output-template", "{{ bumped_branch }}"], "NoNe", "template-result-none-like"),
+            (["render", "1.2.3+nil", "--output-template", "{{ semver_obj.build_part }}"], "nil", "template-result-none-like"),
+            (["render", "1.2.3-null", "--output-template", "{{ semver_obj.pre_release_part }}"], "null", "template-result-none-like"),
+            (V + ["--output-template", "{{ prefix(value='nilpotent', length=3) }}"], "nil", "template-result-none-like"),
+            (V + ["--bumped-branch", "  padded  ", "--output-template", "{{ bumped_branch }}"], "  padded  ", "template-result-trimmed"),
+            (V + ["--bumped-branch", "x", "--output-template", "{{ prefix_if(value=bumped_branch, prefix=' ') }}"], " x", "template-result-trimmed"),
+            (V + ["--bumped-branch", "x", "--output-template", "[{{ prefix_if(value=bumped_branch, prefix=' ') }}]"], "[ x]", None),
+        ]
+        for argv, want, cls in vectors:
+            res["cases"] += 1
+            rc, out, err = _run(zerv, argv, None, work, env)
+            got = out.decode("utf-8", "replace")
+            got = got[:-1] if got.endswith("\n") else got
+            if rc != 0 or got != want:
+                c = cls or "bounded-agreement"
+                classes.setdefault(c, []).append(f"CEX cli_template_output class={c} `zerv {' '.join(argv)}`: status {rc}, prints {got!r}; the template's result is {want!r}")
+    finally:
+        shutil.rmtree(work, ignore_errors=True)
+    res["wall_s"] = round(time.time() - t0, 2)
+    if classes:
+        lines = [l for v in classes.values() for l in v]
+        res.update(status="cex", lines=lines[:5], classes={k: v[:5] for k, v in classes.items()})
+    else:
+        res.update(status="no-cex", lines=[])
+    return res
+
+
+FAMILIES = {"cli_template_output": run_template_output, "cli_check_verdict": run_verdict, "cli_discipline": run, "cli_pipe": run_pipe, "cli_bumps": run_bumps}
